@@ -276,7 +276,7 @@ func runC20(c *kit.Ctx) {
 		}
 	}
 	// concurrency: several simultaneous first requests for one path
-	nconc := c.Pick(4, 200)
+	nconc := c.Pick(16, 200)
 	for ci := 0; ci < nconc; ci++ {
 		idx++
 		if !c.Mine(idx) {
@@ -440,7 +440,14 @@ func c20Concurrent(e *c20env, sh string, ci int) {
 	c := e.c
 	rng := c.SubRng("c20conc", ci)
 	n := 2 + rng.Intn(7)
+	forced := ci%2 == 1
+	if forced {
+		n = 2
+	}
 	name := fmt.Sprintf("concurrent/%d-requesters", n)
+	if forced {
+		name = "concurrent/2-requesters/first-registered-pull-displaced-before-its-requester-attaches"
+	}
 	c.Pre("C20 " + name)
 	cam := kit.NewFakeCam()
 	defer cam.Close()
@@ -452,12 +459,54 @@ func c20Concurrent(e *c20env, sh string, ci int) {
 	until := make(chan struct{})
 	var chans []chan c20outcome
 	pert := kit.H.Perturb([]string{"media.getorcreate.missed", "media.regist.loaded"}, nil, int64(ci)+c.Seed, 0.7, 2*time.Millisecond)
+	if forced {
+		// Forced ordering (each step is released after 3 s at the latest, so nothing can hang): both requesters miss
+		// the registry before either has pulled; the requester whose pull registers first is held before it attaches
+		// until the second pull has registered too - the first pull stream is then displaced with no consumer, must
+		// be closed at once and must let go of the camera.
+		var missed, regs, joins int32
+		bar, both := make(chan struct{}), make(chan struct{})
+		pert = append(pert,
+			kit.H.On("media.getorcreate.missed", nil, func(_ string, a []interface{}) {
+				if p, _ := a[0].(string); !strings.Contains(p, dir) {
+					return
+				}
+				if atomic.AddInt32(&missed, 1) == 1 {
+					select {
+					case <-bar:
+					case <-time.After(3 * time.Second):
+					}
+				} else if atomic.LoadInt32(&missed) == 2 {
+					close(bar)
+				}
+			}),
+			kit.H.On("media.regist.loaded", nil, func(_ string, a []interface{}) {
+				if st, ok := a[0].(*media.Stream); ok && st.Path() == reqPath && atomic.AddInt32(&regs, 1) == 2 {
+					close(both)
+				}
+			}),
+			kit.H.On("media.join.begin", nil, func(_ string, a []interface{}) {
+				if st, ok := a[0].(*media.Stream); ok && st.Path() == reqPath && atomic.AddInt32(&joins, 1) == 1 {
+					select {
+					case <-both:
+						time.Sleep(30 * time.Millisecond) // the second Regist swaps right after its hook point
+						c.Count("forced_loser_without_consumer_orderings", 1)
+					case <-time.After(3 * time.Second):
+					}
+				}
+			}))
+	}
+	var finished int64 // requesters whose session has already ended (refused, or closed with their stream)
 	for i := 0; i < n; i++ {
+		var in chan c20outcome
 		if i%2 == 0 {
-			chans = append(chans, e.requesterFLV(reqPath, until))
+			in = e.requesterFLV(reqPath, until)
 		} else {
-			chans = append(chans, e.requesterRTSP(reqPath, until))
+			in = e.requesterRTSP(reqPath, until)
 		}
+		out := make(chan c20outcome, 1)
+		go func() { o := <-in; atomic.AddInt64(&finished, 1); out <- o }()
+		chans = append(chans, out)
 	}
 	// let every requester either be served or be told off: wait until the camera has streamed to someone and the
 	// number of camera connections has been stable for a while
@@ -486,6 +535,20 @@ func c20Concurrent(e *c20env, sh string, ci int) {
 		detail["registered_for_path"] = reg
 		detail["streams_total"] = sc - e.baseline.Streams
 		c.Violation("C20:concurrent-first-requests:not-exactly-one-registered-stream", detail)
+	}
+	// A pull that lost the registration race is displaced; it may live on while requesters are attached to it, but a
+	// pull nobody is attached to must let go of the camera. While the camera keeps streaming to everybody, the
+	// number of open camera connections can therefore not stay above the number of requesters still being served.
+	if reg == 1 {
+		served := func() int64 { return int64(n) - atomic.LoadInt64(&finished) }
+		if !e.await(func() bool { return int64(cam.Open()) <= served() }, 5*time.Second) {
+			detail["camera_connections_open"] = cam.Open()
+			detail["requesters_still_served"] = served()
+			detail["open_pull_goroutines"] = atomic.LoadInt64(&e.pullOpen)
+			c.Violation("C20:concurrent-first-requests:pull-without-requester-keeps-its-camera-connection", detail)
+		} else {
+			c.SetAdd("concurrent_open_camera_connections_vs_served", fmt.Sprintf("%d<=%d", cam.Open(), served()))
+		}
 	}
 	// the camera drops every connection: every requester - also those attached to a pull stream that lost the
 	// registration race and was displaced - must now see an orderly close
